@@ -50,10 +50,11 @@ _COMMON = {
     "cut_equals_distance": "all_shortest_distances(cut) with cut equal to the exact distance of some pair s != t",
     "cut_below_some_distance": "all_shortest_distances(cut) with a reachable pair beyond the cut",
     "two_edge_shortest_walk": "a pair whose every shortest walk uses >= 2 edges",
-    "state_space_closed": "per-graph BFS reached a fixpoint (no new state at depth 2)",
     "history_depth_2": "a query was executed in a state left behind by a different query",
     "prepared_read": "prepared_shortest_distance read after prepare()",
 }
+_COMMON["prepared_twice"] = "prepare() was called on a network that already held a table from an earlier prepare() with another cut-off"
+_COMMON["sub_network_extracted"] = "sub_network() was called on the network between queries"
 OBLIGATIONS = {"all": dict(_COMMON, **pqueue.OBLIGATIONS), "quick": {}, "thorough": {}}
 
 graphs.install_heap_counter()
@@ -126,6 +127,9 @@ def events_for(nn, W):
     ev = [("sd", s, t) for s in range(nn) for t in range(nn)]
     ev += [("asd", c) for c in graphs.cuts(W)]
     ev += [("prep", 1e300), ("prep", W[1])]
+    # extracting a sub-network (a forward search + a second Network built on the same Edge objects) is a query like any
+    # other: the distances the parent reports afterwards are judged, the extracted network itself is not
+    ev += [("sub", s, W[-1]) for s in (0,)]
     return ev
 
 
@@ -145,6 +149,9 @@ def fire(g, ev):
         return guard(g.net.all_shortest_distances, ev[1])
     if k == "prep":
         return guard(_prepare_and_read, g, ev[1])
+    if k == "sub":
+        st, val = guard(g.net.sub_network, g.args[ev[1]], ev[2], "TOPOLOGIC", False)
+        return (st, None if st == "ok" else val)
     raise RuntimeError("unknown event %r" % (ev,))
 
 
@@ -179,10 +186,12 @@ def _table_verdict(tab, exp):
     return None, None
 
 
-def verdict(g, O, ev, res):
+def verdict(g, O, ev, res, hist=()):
     """One observation against Floyd-Warshall -> (call site, input class, failure class, detail) or None."""
     st, val = res
     k = ev[0]
+    if k == "sub":
+        return None                     # not an observation of this property (only what it leaves behind is)
     site = {"sd": "shortest_distance", "asd": "all_shortest_distances", "prep": "prepare"}[k]
     if st == "hang":
         return (site, None, "does-not-return", val)
@@ -208,8 +217,9 @@ def verdict(g, O, ev, res):
         if why:
             return (site, cut_class(O, ev[1]), why, det)
         return None
-    # prepare + reads
-    cut = ev[1]
+    # prepare + reads.  The table is documented as incremented by successive preparations: after prepare(a) and prepare(b) it
+    # holds the pairs within the larger of the two cut-offs
+    cut = max([ev[1]] + [h[1] for h in hist if h[0] == "prep"])
     if not (isinstance(val, tuple) and len(val) == 2):
         return (site, None, "malformed-result", {"got": repr(val)[:200]})
     table, reads = val
@@ -252,8 +262,20 @@ def make_judge(ctx, variant, nn, edges, O, root_ok):
     nt = O.nontrivial
 
     def judge(hist, ev, res, g):
-        v = verdict(g, O, ev, res)
+        v = verdict(g, O, ev, res, hist)
         k = ev[0]
+        if not g.is_clean():
+            ctx.violation("network/node-positions-or-edge-tables-changed-by-a-query", _case(variant, nn, edges, hist, ev),
+                          {"before": repr(g.qt0)[:300], "after": repr(g.quick_topology())[:300]})
+            return False
+        if k == "sub":
+            ctx.case(False)
+            ctx.oblige("sub_network_extracted")
+            if hist:
+                ctx.oblige("history_depth_2")
+            return res[0] == "ok"
+        if any(h[0] == "sub" for h in hist):
+            ctx.count("queries_after_a_sub_network_extraction")   # informative: the state a sub_network() call leaves is often one a plain query leaves too, and is then not expanded again
         ctx.case(nt)
         if k == "prep":
             ctx.case(nt, nn * nn)          # the prepared_shortest_distance reads
@@ -292,8 +314,20 @@ def explore_graph(variant, nn, edges, W, depth, ctx):
     mk = lambda: Graph(variant, nn, edges, nvert=2)
     n_states, closed = graphs.history_bfs(ctx, (nn, edges), mk, events_for(nn, W), fire,
                                           make_judge(ctx, variant, nn, edges, O, root_ok), depth)
+    # two preparations in a row on one network (the table is incremented): a narrow one then a wider one, and the reverse
+    a, b = W[1], W[-1]
+    for c1, c2 in ((a, 1e300), (0, a + b), (a / 2.0, a), (1e300, a)):
+        hist, ev = (("prep", c1),), ("prep", c2)
+        g, _ = graphs.run_history(mk, fire, hist)
+        res = fire(g, ev)
+        ctx.transition(2)
+        ctx.case(O.nontrivial)
+        ctx.oblige("prepared_twice")
+        v = verdict(g, O, ev, res, hist)
+        if v is not None:
+            ctx.violation(key_of(v, root_ok.get(ev, False)), _case(variant, nn, edges, hist, ev), {"failure": v[3], "ids": g.ids})
     if closed == 2:
-        ctx.oblige("state_space_closed")
+        ctx.count("graphs_closed_at_depth_2")       # informative: says something about the implementation, not the input
     elif depth >= 2:
         ctx.count("graphs_not_closed_at_depth_2")
     ctx.count("graphs")
@@ -349,8 +383,12 @@ def replay(case, ctx):
         root_ok[ev] = verdict(g0, O, ev, fire(g0, ev)) is None
     g, _ = graphs.run_history(mk, fire, hist)
     res = fire(g, ev)
-    v = verdict(g, O, ev, res)
+    v = verdict(g, O, ev, res, hist)
     ctx.case(O.nontrivial)
+    if not g.is_clean():
+        ctx.violation("network/node-positions-or-edge-tables-changed-by-a-query", _case(variant, nn, edges, hist, ev),
+                      {"before": repr(g.qt0)[:300], "after": repr(g.quick_topology())[:300]})
+        return
     if v is not None:
         ctx.violation(key_of(v, bool(hist) and root_ok.get(ev, False)), _case(variant, nn, edges, hist, ev),
                       {"failure": v[3], "ids": g.ids})
